@@ -2,7 +2,7 @@
    progress (liveness by explicit reader-only schedules) and the recorded
    failures of the pinned tree's design. *)
 From Coq Require Import ZArith ZifyBool ZifyNat ZifyN.
-From XV Require Import lib.Bytes lib.Base64 lib.Lts gen.Ibb C15.Model C15.Proofs.
+From XV Require Import lib.Bytes lib.Base64 lib.Lts gen.Ibb C15.Model C15.Proofs C15.ProofsRecv.
 
 (* ===================================================================== *)
 (* 1. DecodedLen is an upper bound: a limit with room accepts everything   *)
@@ -89,6 +89,12 @@ Definition has_room (c : rconn) (pieces : list bytes) : Prop :=
   (rc_max c <= 0)%Z \/
   (Z.of_nat (length (rc_buf c)) + Z.of_nat (cap_need pieces) <= rc_max c)%Z.
 
+Lemma fits_unlimited : forall c data, (rc_max c <= 0)%Z -> fits c data = true.
+Proof.
+  intros c data H. unfold fits. destruct (0 <? rc_max c)%Z eqn:E; [|reflexivity].
+  apply Z.ltb_lt in E. lia.
+Qed.
+
 Lemma fits_room : forall c p rest, has_room c (p :: rest) -> fits c p = true.
 Proof.
   intros c p rest [H|H].
@@ -100,17 +106,18 @@ Proof.
     apply Z.ltb_lt in E. lia.
 Qed.
 
-Lemma deliver_all_accepted_room : forall pieces h iq sid c seq b,
-  lookup h sid = Some c -> rc_rclosed c = false -> rc_seq c = seq -> has_room c pieces ->
+Lemma deliver_all_accepted_room : forall pieces h iq sid id c seq b,
+  lookup h sid = Some (id, c) -> rc_rclosed c = false -> rc_seq c = seq -> has_room c pieces ->
   decode_go_pieces pieces = Some b ->
   exists h' c',
     h_run h (deliver iq sid (number seq pieces)) =
       (h', repeat (OReply (if iq then RAck else RSilent)) (length pieces)) /\
-    lookup h' sid = Some c' /\ rc_buf c' = rc_buf c ++ b /\ rc_rclosed c' = false /\
-    rc_max c' = rc_max c.
+    lookup h' sid = Some (id, c') /\ rc_buf c' = rc_buf c ++ b /\ rc_rclosed c' = false /\
+    rc_max c' = rc_max c /\ rc_pk c' = rc_pk c ++ number seq pieces /\
+    (forall j, j <> id -> get h' j = get h j).
 Proof.
-  induction pieces as [|p rest IH]; intros h iq sid c seq b Hl Hc Hs Hm Hd.
-  - cbn in Hd. injection Hd as <-. exists h, c. cbn. rewrite app_nil_r. repeat split; assumption.
+  induction pieces as [|p rest IH]; intros h iq sid id c seq b Hl Hc Hs Hm Hd.
+  - cbn in Hd. injection Hd as <-. exists h, c. cbn. rewrite !app_nil_r. repeat split; try assumption; reflexivity.
   - cbn [decode_go_pieces] in Hd.
     destruct (decode_go p) as [a|] eqn:Ea; [|discriminate].
     destruct (decode_go_pieces rest) as [b'|] eqn:Eb; [|discriminate].
@@ -118,43 +125,44 @@ Proof.
     cbn [number deliver map p_seq p_data h_run h_step].
     assert (Hr : refusal c seq p = None).
     { unfold refusal. rewrite Hc, <- Hs, N.eqb_refl, (fits_room _ _ _ Hm), Ea. reflexivity. }
-    destruct (handle_payload_accepted _ iq _ _ _ _ Hl Hr) as [d [Hd Hh]].
+    destruct (handle_payload_accepted _ iq _ _ _ _ _ Hl Hr) as [d [Hd Hh]].
     rewrite Ea in Hd. injection Hd as <-. rewrite Hh.
-    set (c1 := mkrc (rc_sid c) (rc_bs c) (seq_next (rc_seq c)) (rc_buf c ++ a) (rc_max c) (rc_registered c) (rc_rclosed c) (rc_werr c)).
-    set (h1 := update h sid (fun _ => c1)).
-    assert (Hl1 : lookup h1 sid = Some c1).
-    { unfold lookup, h1. rewrite find_conn_update.
-      - rewrite bytes_eqb_refl, (lookup_find _ _ _ Hl). cbn [option_map].
-        unfold c1. cbn [rc_registered]. unfold lookup in Hl.
-        rewrite (lookup_find _ _ _ Hl) in Hl. destruct (rc_registered c); [reflexivity|discriminate].
-      - intros c0 Hc0. rewrite (lookup_find _ _ _ Hl) in Hc0. injection Hc0 as <-. reflexivity. }
+    set (c1 := accept_data c seq p a).
+    set (h1 := upd h id (fun _ => c1)).
+    assert (Hl1 : lookup h1 sid = Some (id, c1)) by (apply (lookup_upd_same _ _ _ _ (fun _ => c1) Hl)).
     assert (Hm1 : has_room c1 rest).
     { destruct Hm as [Hm|Hm]; [left; exact Hm|right].
-      unfold c1. cbn [rc_buf rc_max]. cbn [cap_need] in Hm. rewrite app_length.
+      unfold c1, accept_data. cbn [rc_buf rc_max]. cbn [cap_need] in Hm. rewrite app_length.
       pose proof (decode_go_length_le _ _ Ea). lia. }
-    destruct (IH h1 iq sid c1 (seq_next seq) b' Hl1) as [h' [c' [Hrun [Hl' [Hb' [Hc' Hm']]]]]].
-    + unfold c1. cbn. exact Hc.
-    + unfold c1. cbn. rewrite Hs. reflexivity.
+    destruct (IH h1 iq sid id c1 (seq_next seq) b' Hl1) as [h' [c' [Hrun [Hl' [Hb' [Hc' [Hm' [Hp' Ho']]]]]]]].
+    + exact Hc.
+    + unfold c1, accept_data. cbn [rc_seq]. rewrite Hs. reflexivity.
     + exact Hm1.
     + reflexivity.
     + exists h', c'. unfold deliver in Hrun. fold h1. rewrite Hrun. cbn [length repeat].
-      repeat split; try assumption. rewrite Hb'. unfold c1. cbn [rc_buf]. rewrite <- app_assoc. reflexivity.
+      repeat split; try assumption.
+      * rewrite Hb'. unfold c1, accept_data. cbn [rc_buf]. rewrite <- app_assoc. reflexivity.
+      * rewrite Hp'. unfold c1, accept_data. cbn [rc_pk]. rewrite <- app_assoc. reflexivity.
+      * intros j Hj. rewrite (Ho' j Hj). unfold h1. apply get_upd_other. exact Hj.
 Qed.
 
 (* The pipe with a buffer limit: the packets of any sender, delivered in order
-   to an open connection that has room for them by its own estimate, are all
-   accepted and the buffer grows by exactly the bytes written. *)
-Theorem pipe_delivers_exactly_room : forall bs ops h iq sid c,
-  lookup h sid = Some c -> rc_rclosed c = false ->
+   - on either carrier - to the connection registered under the identifier,
+   which has room for them by its own estimate, are all accepted, the buffer
+   grows by exactly the bytes written, and no other connection (an older one
+   under the same identifier, for instance) is touched. *)
+Theorem pipe_delivers_exactly_room : forall bs ops h iq sid id c,
+  lookup h sid = Some (id, c) -> rc_rclosed c = false ->
   has_room c (map p_data (sender bs (rc_seq c) ops)) ->
   exists h' c',
     h_run h (deliver iq sid (sender bs (rc_seq c) ops)) =
       (h', repeat (OReply (if iq then RAck else RSilent)) (length (sender bs (rc_seq c) ops))) /\
-    lookup h' sid = Some c' /\ rc_buf c' = rc_buf c ++ written ops /\ rc_rclosed c' = false.
+    lookup h' sid = Some (id, c') /\ rc_buf c' = rc_buf c ++ written ops /\ rc_rclosed c' = false /\
+    (forall j, j <> id -> get h' j = get h j).
 Proof.
-  intros bs ops h iq sid c Hl Hc Hm.
+  intros bs ops h iq sid id c Hl Hc Hm.
   pose proof (packets_carry_written bs (rc_seq c) ops) as Hd. unfold sender in *. rewrite number_data in *.
-  destruct (deliver_all_accepted_room _ h iq sid c (rc_seq c) _ Hl Hc eq_refl Hm Hd) as [h' [c' [Hr [Hl' [Hb [Hc' _]]]]]].
+  destruct (deliver_all_accepted_room _ h iq sid id c (rc_seq c) _ Hl Hc eq_refl Hm Hd) as [h' [c' [Hr [Hl' [Hb [Hc' [_ [_ Ho]]]]]]]].
   exists h', c'. rewrite number_length. repeat split; assumption.
 Qed.
 
@@ -399,7 +407,7 @@ Qed.
 (* ===================================================================== *)
 
 Definition pinned_witness_conn : rconn :=
-  mkrc (str "a") 8 1 (str "ABC") (Z.of_N ibb_max_buffer) true false false.
+  mkrc (str "a") 8 1 (str "ABC") (Z.of_N ibb_max_buffer) false false [] [].
 
 (* a packet refused with bad-request left its decoded prefix in the buffer and
    used up its sequence number *)
@@ -429,59 +437,17 @@ Proof.
   intros bs seq0 ops. exact (conj (packets_each_decodable bs seq0 ops) (packets_carry_written bs seq0 ops)).
 Qed.
 
-(* ===================================================================== *)
-(* 4. the peer's close request and the local writer's errors               *)
-(* ===================================================================== *)
-
-(* A close request for a registered stream is acknowledged and deregisters it,
-   whatever state the connection is in — in particular when a data packet of
-   the local writer was refused earlier and its error is still pending. What
-   was buffered for the reader is untouched. *)
-Theorem peer_close_always_answered : forall h sid c,
-  lookup h sid = Some c ->
-  h_step h (ECloseRemote sid) = (update h sid set_rclosed, OReply RAck) /\
-  lookup (update h sid set_rclosed) sid = None /\
-  buf_of (update h sid set_rclosed) sid = rc_buf c /\
-  find_conn (update h sid set_rclosed) sid = Some (set_rclosed c).
+(* On either carrier an accepted packet wakes the reader: one blocked in the
+   receive is handed the signal directly, one that has found the buffer empty
+   and not yet started to wait finds the signal queued. *)
+Theorem deliver_wakes_reader : forall s iq d n,
+  l_closed s = false ->
+  (l_pc s = PRecv n ->
+     exists s', lstep s (LDeliver iq d) = Some s' /\ l_pc s' = PWoken n true /\ l_buf s' = l_buf s ++ d /\
+                hd_error (l_log s') = Some (accepted_obs iq)) /\
+  (l_pc s = PChecked n ->
+     exists s', lstep s (LDeliver iq d) = Some s' /\ l_pc s' = PChecked n /\ l_tok s' = true /\
+                l_buf s' = l_buf s ++ d /\ hd_error (l_log s') = Some (accepted_obs iq)).
 Proof.
-  intros h sid c H. pose proof (lookup_find _ _ _ H) as Hf.
-  split; [apply (close_remote_known _ _ _ H)|].
-  split; [apply (lookup_after_close _ _ _ Hf)|].
-  split; [|apply (find_after_close _ _ _ Hf)].
-  unfold buf_of. rewrite (find_after_close _ _ _ Hf). reflexivity.
+  intros s iq d n Hc. split; intro Hp; unfold lstep; rewrite Hp, Hc; eexists; repeat split; reflexivity.
 Qed.
-
-(* the same after every history *)
-Theorem peer_close_answered_after_any_history : forall es h os sid c,
-  h_run [] es = (h, os) -> lookup h sid = Some c ->
-  snd (h_step h (ECloseRemote sid)) = OReply RAck.
-Proof.
-  intros es h os sid c _ H. rewrite (close_remote_known _ _ _ H). reflexivity.
-Qed.
-
-(* A refused data packet is the local writer's business: that Write/Flush
-   fails, every later one fails the same way and sends nothing, and the
-   handler's read side is exactly as before. *)
-Theorem refused_write_sticks : forall h sid c,
-  find_conn h sid = Some c -> rc_rclosed c = false -> rc_werr c = false ->
-  let h1 := update h sid set_werr in
-  h_step h (EWrite sid false) = (h1, OWrite false) /\
-  (forall acc, h_step h1 (EWrite sid acc) = (h1, OWrite false)) /\
-  (forall s, buf_of h1 s = buf_of h s) /\
-  (lookup h sid = Some c -> lookup h1 sid = Some (set_werr c)).
-Proof.
-  intros h sid c Hf Hc Hw h1.
-  assert (Hf1 : find_conn h1 sid = Some (set_werr c)).
-  { unfold h1. rewrite find_conn_update by (intros; reflexivity). rewrite bytes_eqb_refl, Hf. reflexivity. }
-  split; [|split; [|split]].
-  - cbn [h_step]. rewrite Hf, Hc, Hw. reflexivity.
-  - intro acc. cbn [h_step]. rewrite Hf1. cbn [set_werr rc_rclosed rc_werr]. rewrite Hc. reflexivity.
-  - intro s. apply buf_of_update_keep; intros; reflexivity.
-  - intro Hl. unfold lookup in *. rewrite Hf1. rewrite Hf in Hl. cbn [set_werr rc_registered].
-    destruct (rc_registered c); [reflexivity|discriminate].
-Qed.
-
-(* before the repair: with the stale error pending the request was not answered *)
-Theorem stale_write_error_left_close_unanswered :
-  exists c, rc_werr c = true /\ rc_rclosed c = false /\ close_remote_reply_stale c = None.
-Proof. exists (set_werr (new_conn (str "a") 8)). repeat split; reflexivity. Qed.
